@@ -137,7 +137,11 @@ fn scenario(ctx: &Ctx, out: &mut Outcome, rng: &mut Rng, idx: u64) {
         gc_grace_period: Duration::from_secs(grace_s),
         sharding_enabled: false,
     };
+    // a burst of lost compare-and-swap races on the metadata objects (5 = a client's whole retry budget):
+    // catalog mutations of the compactor (swap, retention's delete_chunk) fail with retry exhaustion
+    let contention: Option<(u64, u64)> = if !local_backend && rng.chance(1, 5) { Some((rng.below(20), *rng.pick(&[5u64, 5, 6, 10]))) } else { None };
     let plan_json = json!({"backend": if local_backend {"local"} else {"object-store"}, "retention_days": retention_days, "grace_s": grace_s,
+        "lost_cas_burst": contention.map(|(f, c)| format!("conditional PUTs #{}..#{}", f, f + c)),
         "chunks": plans.iter().map(|p| format!("{} rows={}", p.0, p.1.len())).collect::<Vec<_>>(), "cycles": ncycles, "query_actors": nqueries, "restart": restart, "operator_removes_a_chunk_before_restart_loop": admin_delete});
     let plans2 = plans.clone();
     let cfg2 = cfg.clone();
@@ -203,6 +207,7 @@ fn scenario(ctx: &Ctx, out: &mut Outcome, rng: &mut Rng, idx: u64) {
         } else {
             ctl.set_gate_filter(Some(Arc::new(|p: &crate::sim::ParkedInfo| !p.actor.starts_with("admin"))));
         }
+        ctl.set_contention(contention.map(|(from, count)| crate::sim::Contention { path_contains: ".json".into(), from, count }));
         ctl.set_gating(true);
         let monitor = Arc::new(ShardMonitor::new(HotShardConfig::default()));
         let comp = Compactor::new(cfg2.clone(), ctl.store("comp"), mk_meta(&ctl, "comp"), storage_config(), monitor.clone()).with_pin_registry(registry.clone());
@@ -343,6 +348,7 @@ fn scenario(ctx: &Ctx, out: &mut Outcome, rng: &mut Rng, idx: u64) {
             }
         }
         ctl.set_gating(false);
+        ctl.set_contention(None);
         use futures::StreamExt;
         let mut final_objects = BTreeSet::new();
         let mut ls = ctl.backing.list(None);
